@@ -27,9 +27,9 @@ import (
 	"github.com/lni/dragonboat/v4/client"
 	"github.com/lni/dragonboat/v4/config"
 	"github.com/lni/dragonboat/v4/internal/rsm"
-	"github.com/lni/goutils/random"
 	pb "github.com/lni/dragonboat/v4/raftpb"
 	sm "github.com/lni/dragonboat/v4/statemachine"
+	"github.com/lni/goutils/random"
 )
 
 type rqNote struct {
@@ -39,28 +39,28 @@ type rqNote struct {
 }
 
 type rqEv struct {
-	T       int      `json:"t"`
-	I       int      `json:"i"`
-	Op      string   `json:"op"`
-	Oid     int      `json:"oid"`
-	Rid     int      `json:"rid"`
-	Key     uint64   `json:"key"`
-	Cid     uint64   `json:"cid"`
-	Series  uint64   `json:"series"`
-	To      uint64   `json:"to"`
-	Err     string   `json:"err"`
-	Val     uint64   `json:"val"`
-	Flag    bool     `json:"flag"`
-	Flag2   bool     `json:"flag2"`
-	N       uint64   `json:"n"`
-	Ctx     uint64   `json:"ctx"`
-	Keys    []uint64 `json:"keys"`
-	Rids    []int    `json:"rids"`
-	Notes   []rqNote `json:"notes"`
-	NC      bool     `json:"nc"`
-	Shards  uint64   `json:"shards"`
-	Rel     bool     `json:"rel"`
-	Msg     string   `json:"msg,omitempty"`
+	T      int      `json:"t"`
+	I      int      `json:"i"`
+	Op     string   `json:"op"`
+	Oid    int      `json:"oid"`
+	Rid    int      `json:"rid"`
+	Key    uint64   `json:"key"`
+	Cid    uint64   `json:"cid"`
+	Series uint64   `json:"series"`
+	To     uint64   `json:"to"`
+	Err    string   `json:"err"`
+	Val    uint64   `json:"val"`
+	Flag   bool     `json:"flag"`
+	Flag2  bool     `json:"flag2"`
+	N      uint64   `json:"n"`
+	Ctx    uint64   `json:"ctx"`
+	Keys   []uint64 `json:"keys"`
+	Rids   []int    `json:"rids"`
+	Notes  []rqNote `json:"notes"`
+	NC     bool     `json:"nc"`
+	Shards uint64   `json:"shards"`
+	Rel    bool     `json:"rel"`
+	Msg    string   `json:"msg,omitempty"`
 }
 
 var rqCodes = map[RequestResultCode]string{
@@ -92,19 +92,19 @@ type rqSim struct {
 	lq     pendingRaftLogQuery
 	tick   uint64
 	// observer side
-	oids    map[*RequestState]int
-	objs    []*RequestState
-	live    map[int]*RequestState // oid -> object with an accepted, not yet released request
-	ridOf   map[int]int           // oid -> rid of the current incarnation
-	nextRid int
-	entries []rqEntry // entries the "raft log" knows about (dequeued proposals)
-	held    []*RequestState
-	ctxs    []uint64
-	sysctx  map[uint64]pb.SystemCtx
-	ccKeys  []uint64
-	ssKeys  []uint64
-	lqHeld  bool
-	closed  map[string]bool
+	oids          map[*RequestState]int
+	objs          []*RequestState
+	live          map[int]*RequestState // oid -> object with an accepted, not yet released request
+	ridOf         map[int]int           // oid -> rid of the current incarnation
+	nextRid       int
+	entries       []rqEntry // entries the "raft log" knows about (dequeued proposals)
+	held          []*RequestState
+	ctxs          []uint64
+	sysctx        map[uint64]pb.SystemCtx
+	ccKeys        []uint64
+	ssKeys        []uint64
+	lqHeld        bool
+	closed        map[string]bool
 	committedKeys map[uint64]bool
 }
 
